@@ -100,11 +100,9 @@ structure Content where
   result : Bool := false
   deriving Repr, DecidableEq
 
-/-- a second Request directive of a method: the first one stays, body and headers are filled in -/
-def mergeReq : Option ReqM → Option ReqM → Option ReqM
-  | none, b => b
-  | some a, none => some a
-  | some a, some b => some { id := a.id, body := a.body.or b.body, headers := a.headers || b.headers }
+/-- the request of a method: a method has at most one Request directive (a second one is refused, see
+`lReqNew`), so "the first one" is all there is to say -/
+def mergeReq (a b : Option ReqM) : Option ReqM := a.or b
 
 def Content.merge (a b : Content) : Content :=
   { descr := a.descr.or b.descr, query := a.query.or b.query, request := mergeReq a.request b.request,
@@ -149,14 +147,19 @@ def lReqBody (b : BodyM) (x : InterM) : Option InterM :=
   | none => none
   | some r => if r.body.isSome then none else some { x with request := some { r with body := some b } }
 
-def lReqNew (d : BDir) (x : InterM) : InterM :=
-  if x.request.isNone then { x with request := some { id := d.id } } else x
+/-- a Request directive: refused when the interaction has a request already -/
+def lReqNew (d : BDir) (x : InterM) : Option InterM :=
+  if x.request.isSome then none else some { x with request := some { id := d.id } }
+
+/-- the body part of a Request directive or of a Body directive under one -/
+def lReqTail (d : BDir) (x : InterM) : Option InterM :=
+  if reqSupplies d then lReqBody (bodyM d) x
+  else if d.kind == .Body then none
+  else some x
 
 /-- a Request directive or a Body directive under one -/
 def lRequest (d : BDir) (x : InterM) : Option InterM :=
-  if reqSupplies d then lReqBody (bodyM d) (if d.kind == .Request then lReqNew d x else x)
-  else if d.kind == .Body then none
-  else some (if d.kind == .Request then lReqNew d x else x)
+  (if d.kind == .Request then lReqNew d x else some x).bind (lReqTail d)
 
 def lRespBody (b : BodyM) (x : InterM) : Option InterM :=
   match x.responses.getLast? with
@@ -384,6 +387,39 @@ theorem addResponseBody_loc {d : BDir} {anc : List Up} {b : BodyM} {c c' : Cat}
   rw [hx] at hx'; cases hx'
   simp [lRespBody, hr, hb]
 
+theorem Loc.none {c : Cat} (i : IId) (L : InterM → Option InterM) (h : c.getInter i = none) : Loc i L c c := by
+  intro j x hj
+  refine ⟨x, hj, ?_⟩
+  by_cases hji : j = i
+  · subst hji; rw [h] at hj; cases hj
+  · simp [hji]
+
+/-- the part of `addRequest` after the Request directive itself is registered -/
+theorem addRequest_tail_loc {d : BDir} {anc : List Up} {c c₁ c' : Cat} {i : IId} {L₁ : InterM → Option InterM}
+    {kb : Bool} {m : Msg} (hi' : httpIdOf (d :: anc.map (·.d)) = .ok i) (hc₁ : Loc i L₁ c c₁)
+    (hkb : kb = (d.kind == .Body))
+    (h : (if reqSupplies d = true then addRequestBody d anc (bodyM d) c₁
+          else if kb = true then (.error ⟨d.id, m⟩ : R Cat) else pure c₁) = .ok c') :
+    Loc i (fun x => (L₁ x).bind (lReqTail d)) c c' := by
+  subst hkb
+  split at h
+  · rename_i hs
+    obtain ⟨i₂, hi₂, hl⟩ := addRequestBody_loc h
+    have : i₂ = i := ok_inj (hi₂.symm.trans hi')
+    subst this
+    refine (hc₁.comp hl).mono ?_
+    intro x y _ hy
+    cases hx : L₁ x with
+    | none => simp [hx] at hy
+    | some x₁ => simpa [hx, lReqTail, hs] using hy
+  · rename_i hs
+    split at h; · cases h
+    rename_i hk
+    cases h
+    refine hc₁.mono ?_
+    intro x y _ hy
+    simp [hy, lReqTail, hs, hk]
+
 theorem addRequest_loc {d : BDir} {anc : List Up} {c c' : Cat} (hk : d.kind = .Request ∨ d.kind = .Body)
     (h : addRequest d anc c = .ok c') :
     ∃ i, httpIdOf (d :: anc.map (·.d)) = .ok i ∧ Loc i (lRequest d) c c' := by
@@ -395,30 +431,34 @@ theorem addRequest_loc {d : BDir} {anc : List Up} {c c' : Cat} (hk : d.kind = .R
   have hn := notaOf_eq hnt
   subst hn
   simp only [ite4] at h
+  have hbm : ({ format := formatOf (notaOf d), nota := notaOf d } : BodyM) = bodyM d := rfl
+  simp only [hbm] at h
   split at h
   · rename_i hkr
     obtain ⟨i, hi, h⟩ := C04B.bind_ok h
-    obtain ⟨c₁, h₁, h⟩ := C04B.bind_ok h
-    cases h₁
     have hi' := C04B.liftAt_ok hi
-    have hc₁ : Loc i (fun x => some (lReqNew d x)) c (c.updInter i (lReqNew d)) :=
-      Loc.upd _ (fun x => by unfold lReqNew; split <;> rfl) (fun x _ => rfl)
+    have hmono : ∀ x y, (lReqNew d x).bind (lReqTail d) = some y → lRequest d x = some y := by
+      intro x y hy
+      simpa [lRequest, hkr] using hy
     split at h
-    · rename_i hs
-      obtain ⟨i₂, hi₂, hl⟩ := addRequestBody_loc h
-      have : i₂ = i := ok_inj (hi₂.symm.trans hi')
-      subst this
-      refine ⟨i₂, hi', (hc₁.comp hl).mono ?_⟩
-      intro x y _ hy
-      have hs' : reqSupplies d = true := hs
-      simpa [lRequest, hs', hkr, bodyM] using hy
-    · split at h; · cases h
-      rename_i hs hkb
-      cases h
-      refine ⟨i, hi', hc₁.mono ?_⟩
-      intro x y _ hy
-      have hs' : ¬ (reqSupplies d = true) := hs
-      simpa [lRequest, hs', hkr, hkb] using hy
+    · rename_i x hx
+      split at h
+      · -- a second Request directive of one method: refused
+        obtain ⟨c₁, h₁, _⟩ := C04B.bind_ok h
+        cases h₁
+      · rename_i hreq
+        obtain ⟨c₁, h₁, h⟩ := C04B.bind_ok h
+        cases h₁
+        have hc₁ : Loc i (lReqNew d) c (c.updInter i fun x => { x with request := some { id := d.id } }) := by
+          refine Loc.upd _ (fun _ => rfl) ?_
+          intro x' hx'
+          rw [hx] at hx'; cases hx'
+          simp [lReqNew, hreq]
+        exact ⟨i, hi', (addRequest_tail_loc hi' hc₁ rfl h).mono (fun x y _ hy => hmono x y hy)⟩
+    · rename_i hx
+      obtain ⟨c₁, h₁, h⟩ := C04B.bind_ok h
+      cases h₁
+      exact ⟨i, hi', (addRequest_tail_loc hi' (Loc.none i (lReqNew d) hx) rfl h).mono (fun x y _ hy => hmono x y hy)⟩
   · rename_i hkr
     obtain ⟨c₁, h₁, h⟩ := C04B.bind_ok h
     cases h₁
@@ -432,7 +472,7 @@ theorem addRequest_loc {d : BDir} {anc : List Up} {c c' : Cat} (hk : d.kind = .R
       refine ⟨i, hi, hl.mono ?_⟩
       intro x y _ hy
       have hs' : reqSupplies d = true := hs
-      simpa [lRequest, hs', hkb, bodyM] using hy
+      simpa [lRequest, lReqTail, hs', hkb] using hy
     · split at h; · cases h
       rename_i _ hnb
       simp [hkb] at hnb
@@ -1134,7 +1174,7 @@ end
 theorem mergeReq_none_right (a : Option ReqM) : mergeReq a none = a := by cases a <;> rfl
 
 theorem mergeReq_assoc (a b c : Option ReqM) : mergeReq (mergeReq a b) c = mergeReq a (mergeReq b c) := by
-  cases a <;> cases b <;> cases c <;> simp [mergeReq, Option.or_assoc, Bool.or_assoc]
+  cases a <;> cases b <;> cases c <;> simp [mergeReq]
 
 theorem add_empty (x : InterM) : addC x {} = x := by
   cases x; simp [addC, mergeReq_none_right]
@@ -1343,10 +1383,13 @@ theorem lHeadReq_some {x y : InterM} {r : ReqM} (hx : x.request = some r) (h : l
 theorem lRequest_body {d : BDir} {x y : InterM} (hk : d.kind = .Body) (h : lRequest d x = some y) :
     lReqBody (bodyM d) x = some y := by
   unfold lRequest at h
-  simp only [hk] at h
+  simp only [hk, show (Kind.Body == Kind.Request) = false from rfl, Bool.false_eq_true, if_false,
+    Option.bind_some] at h
+  unfold lReqTail at h
+  simp only [hk, beq_self_eq_true, if_true] at h
   split at h
-  · simpa using h
-  · simp at h
+  · exact h
+  · cases h
 
 theorem fold_gk_req {i : IId} {p : Up} {rest : List Up} (hp : p.d.kind = .Request)
     (hh : ∀ gd : BDir, inner gd.kind = true → (httpIdOf (gd :: (p :: rest).map (·.d))).toOption = some i) :
@@ -1391,34 +1434,27 @@ theorem fold_gk_req {i : IId} {p : Up} {rest : List Up} (hp : p.d.kind = .Reques
 theorem mergeReq_some_right (o : Option ReqM) (q : ReqM) : ∃ r, mergeReq o (some q) = some r := by
   cases o <;> exact ⟨_, rfl⟩
 
+/-- a Request directive is accepted only while the interaction has no request; it supplies the request -/
 theorem lRequest_new {d : BDir} {x x₀ : InterM} (hk : d.kind = .Request) (h : lRequest d x = some x₀) :
-    x₀ = { x with request := (mergeReq x.request (some { id := d.id, body := if reqSupplies d then some (bodyM d) else none })) } := by
+    x.request = none ∧
+    x₀ = { x with request := some { id := d.id, body := if reqSupplies d then some (bodyM d) else none } } := by
   unfold lRequest at h
   simp only [hk, beq_self_eq_true, if_true] at h
   cases hr : x.request with
+  | some r0 => simp [lReqNew, hr] at h
   | none =>
-    have hnew : lReqNew d x = { x with request := some { id := d.id } } := by simp [lReqNew, hr]
+    refine ⟨rfl, ?_⟩
+    have hnew : lReqNew d x = some { x with request := some { id := d.id } } := by simp [lReqNew, hr]
     rw [hnew] at h
+    simp only [Option.bind_some, lReqTail, hk, show (Kind.Request == Kind.Body) = false from rfl,
+      Bool.false_eq_true, if_false] at h
     split at h
     · rename_i hs
       obtain ⟨_, rfl⟩ := lReqBody_some (r := { id := d.id }) rfl h
-      simp [hs, mergeReq]
+      simp [hs]
     · rename_i hs
-      simp at h
-      subst h
-      simp [hs, mergeReq]
-  | some r0 =>
-    have hnew : lReqNew d x = x := by simp [lReqNew, hr]
-    rw [hnew] at h
-    split at h
-    · rename_i hs
-      obtain ⟨hb, rfl⟩ := lReqBody_some hr h
-      simp [hs, mergeReq, hb]
-    · rename_i hs
-      simp at h
-      subst h
-      cases x
-      simp_all [mergeReq]
+      cases h
+      simp [hs]
 
 theorem ite_or {α} (s : Bool) (b : α) (o : Option α) :
     (if s = true then some b else none).or o = if s = true then some b else o := by
@@ -1463,28 +1499,14 @@ theorem fold_kid {i : IId} {md : BDir} {mk : List BDir} {manc : List Up} (hm : i
         have ht : tgt ⟨kd, gks.map BTree.dir, ⟨md, mk⟩ :: manc⟩ = some i := by simp only [tgt, hk]; exact ht0
         obtain ⟨x₀, he, hf⟩ := fold_cons_tgt ht h
         simp only [effP, hk] at he
-        have hx₀ := lRequest_new hk he
-        obtain ⟨r, hr⟩ := mergeReq_some_right x.request
-          { id := kd.id, body := if reqSupplies kd then some (bodyM kd) else none }
+        obtain ⟨hxr, hx₀⟩ := lRequest_new hk he
         have hgk := fold_gk_req (i := i) (p := ⟨kd, gks.map BTree.dir⟩) (rest := ⟨md, mk⟩ :: manc) hk
           (fun gd hgd => by rw [hc1 gd hgd]; exact toOption_ok hhttp) gks hho.2
-          (fun g hg => by simpa [hk] using hho.1 g.dir (List.mem_map_of_mem hg)) x₀ y r (by rw [hx₀]; exact hr) hf
-        have key : (some { id := r.id, body := r.body.or (childBody (gks.map BTree.dir)),
-                           headers := r.headers || hasKind .Headers (gks.map BTree.dir) } : Option ReqM) =
-            mergeReq x.request (some (reqPart (.node kd gks))) := by
-          cases hxr : x.request with
-          | none =>
-            rw [hxr] at hr; simp only [mergeReq, Option.some.injEq] at hr; subst hr
-            simp [mergeReq, reqPart, reqBodyOf, BTree.dir, BTree.kids, ite_or]
-            try rfl
-          | some r0 =>
-            rw [hxr] at hr; simp only [mergeReq, Option.some.injEq] at hr; subst hr
-            simp [mergeReq, reqPart, reqBodyOf, BTree.dir, BTree.kids, ite_or, Option.or_assoc]
-            try rfl
+          (fun g hg => by simpa [hk] using hho.1 g.dir (List.mem_map_of_mem hg)) x₀ y
+          { id := kd.id, body := if reqSupplies kd then some (bodyM kd) else none } (by rw [hx₀]) hf
         rw [hgk, hx₀]
-        simp only [addC, kidContent, BTree.dir, hk]
-        rw [← key]
-        simp
+        simp [addC, kidContent, BTree.dir, BTree.kids, hk, hxr, mergeReq, reqPart, reqBodyOf, ite_or]
+        try rfl
       · simp only [flatA] at h
         have ht : tgt ⟨kd, gks.map BTree.dir, ⟨md, mk⟩ :: manc⟩ = some i := by simp only [tgt, hk]; exact ht0
         obtain ⟨x₀, he, hf⟩ := fold_cons_tgt ht h
@@ -1785,9 +1807,9 @@ theorem content_query_none : ∀ kids : List BTree, (∀ k ∈ kids, k.dir.kind 
     unfold kidContent
     cases hk : k.dir.kind <;> simp_all
 
-/-- the Request children of a method directive, merged: the first one stays -/
-def reqOf (kids : List BTree) : Option ReqM :=
-  ((kids.filter (·.dir.kind == .Request)).map reqPart).foldr (fun q acc => mergeReq (some q) acc) none
+/-- the Request child of a method directive (the first one; an accepted method directive has at most one, see
+`http_one_request`) -/
+def reqOf (kids : List BTree) : Option ReqM := (kids.find? (·.dir.kind == .Request)).map reqPart
 
 theorem kidContent_request (k : BTree) :
     (kidContent k).request = if k.dir.kind == .Request then some (reqPart k) else none := by
@@ -1797,7 +1819,559 @@ theorem kidContent_request (k : BTree) :
 theorem content_request : ∀ kids : List BTree, (content kids).request = reqOf kids
   | [] => rfl
   | k :: r => by
-    simp only [content, Content.merge, kidContent_request, content_request r, reqOf, List.filter_cons]
-    split <;> simp [mergeReq]
+    simp only [content, Content.merge, kidContent_request, content_request r, reqOf, List.find?_cons]
+    cases (k.dir.kind == Kind.Request) <;> simp [mergeReq]
+
+/-! ### a second Request directive of one method is refused (no nesting hypothesis) -/
+
+theorem lReqBody_request {b : BodyM} {x y : InterM} (h : lReqBody b x = some y) : y.request.isSome = true := by
+  unfold lReqBody at h
+  split at h; · cases h
+  split at h; · cases h
+  cases h; rfl
+
+theorem lRequest_mono {d : BDir} {x y : InterM} (h : lRequest d x = some y) (hs : x.request.isSome = true) :
+    y.request.isSome = true := by
+  unfold lRequest at h
+  split at h
+  · simp [lReqNew, hs] at h
+  · simp only [Option.bind_some] at h
+    unfold lReqTail at h
+    split at h
+    · exact lReqBody_request h
+    · split at h
+      · cases h
+      · cases h; exact hs
+
+theorem lResponse_mono {d : BDir} {x y : InterM} (h : lResponse d x = some y) : y.request = x.request := by
+  unfold lResponse at h
+  have hb : ∀ {b : BodyM} {x y : InterM}, lRespBody b x = some y → y.request = x.request := by
+    intro b x y h
+    unfold lRespBody at h
+    split at h; · cases h
+    split at h; · cases h
+    cases h; rfl
+  have hn : ∀ x' : InterM, (if (d.kind == Kind.HTTPResponseCode) = true then lRespNew d x' else x').request = x'.request := by
+    intro x'; split <;> rfl
+  split at h
+  · rw [hb h, hn]
+  · split at h
+    · cases h
+    · cases h; rw [hn]
+
+/-- no accepted step takes the request of an interaction away -/
+theorem effP_request_mono {e : Ent} {x y : InterM} (h : effP e x = some y) (hs : x.request.isSome = true) :
+    y.request.isSome = true := by
+  unfold effP at h
+  split at h
+  · unfold lDescr at h
+    split at h; · cases h
+    split at h; · cases h
+    cases h; exact hs
+  · unfold lQuery at h
+    split at h; · cases h
+    cases h; exact hs
+  · exact lRequest_mono h hs
+  · rw [lResponse_mono h]; exact hs
+  · unfold lHeaders at h
+    split at h
+    · split at h
+      · unfold lHeadReq at h
+        split at h; · cases h
+        split at h; · cases h
+        cases h; rfl
+      · split at h
+        · unfold lHeadResp at h
+          split at h; · cases h
+          split at h; · cases h
+          cases h; exact hs
+        · cases h
+    · cases h
+  · unfold lBody at h
+    split at h
+    · split at h
+      · exact lRequest_mono h hs
+      · split at h
+        · rw [lResponse_mono h]; exact hs
+        · cases h; exact hs
+    · cases h
+  · unfold lParams at h
+    split at h; · cases h
+    cases h; exact hs
+  · unfold lResult at h
+    split at h; · cases h
+    cases h; exact hs
+  · cases h; exact hs
+
+theorem foldP_request_mono (j : IId) : ∀ (l : List Ent) {x y : InterM}, foldP j l x = some y →
+    x.request.isSome = true → y.request.isSome = true
+  | [], x, y, h, hs => by simp [foldP] at h; subst h; exact hs
+  | e :: r, x, y, h, hs => by
+    simp only [foldP] at h
+    split at h
+    · cases he : effP e x with
+      | none => simp [he] at h
+      | some x₀ =>
+        simp only [he, Option.bind_some] at h
+        exact foldP_request_mono j r h (effP_request_mono he hs)
+    · exact foldP_request_mono j r h hs
+
+mutual
+  /-- where a subtree sits in the source order -/
+  theorem subs_split (anc : List Up) : ∀ (t : BTree) (a : List Up) (s : BTree), (a, s) ∈ subs anc t →
+      ∃ pre post, flatA anc t = pre ++ flatA a s ++ post
+    | .node d kids, a, s, hs => by
+      simp only [subs, List.mem_cons] at hs
+      rcases hs with heq | hs
+      · cases heq
+        exact ⟨[], [], by simp⟩
+      · obtain ⟨pre, post, h1⟩ := subsF_split _ kids a s hs
+        exact ⟨⟨d, kids.map BTree.dir, anc⟩ :: pre, post, by simp [flatA, h1]⟩
+  theorem subsF_split (anc : List Up) : ∀ (f : List BTree) (a : List Up) (s : BTree), (a, s) ∈ subsF anc f →
+      ∃ pre post, flatAF anc f = pre ++ flatA a s ++ post
+    | [], a, s, hs => by simp [subsF] at hs
+    | t :: r, a, s, hs => by
+      simp only [subsF, List.mem_append] at hs
+      rcases hs with hs | hs
+      · obtain ⟨pre, post, h1⟩ := subs_split anc t a s hs
+        exact ⟨pre, post ++ flatAF anc r, by simp [flatAF, h1]⟩
+      · obtain ⟨pre, post, h1⟩ := subsF_split anc r a s hs
+        exact ⟨flatA anc t ++ pre, post, by simp [flatAF, h1]⟩
+end
+
+/-- the children of an HTTP method directive, run one after the other, seen from the method's interaction `i`:
+a Request child is accepted only while the interaction has no request, and it leaves one -/
+theorem run_kids_request {banned : List Kind} {i : IId} {p : Up} {rest : List Up}
+    (hpi : httpIdOf (p.d :: rest.map (·.d)) = .ok i) :
+    ∀ (kids : List BTree) (c c' : Cat) (x : InterM), run banned (flatAF (p :: rest) kids) c = .ok c' →
+      c.getInter i = some x →
+      ∃ y, c'.getInter i = some y ∧
+        (x.request.isSome = true → y.request.isSome = true ∧ ∀ k ∈ kids, k.dir.kind ≠ .Request) ∧
+        (kids.filter (·.dir.kind == .Request)).length ≤ 1
+  | [], c, c', x, h, hx => by
+    simp [flatAF, run] at h; subst h
+    exact ⟨x, hx, fun hs => ⟨hs, fun k hk => by cases hk⟩, by simp⟩
+  | .node kd gks :: r, c, c', x, h, hx => by
+    simp only [flatAF, flatA, List.cons_append, run] at h
+    cases hs : step banned ⟨kd, gks.map BTree.dir, p :: rest⟩ c with
+    | error err => simp [hs] at h
+    | ok c₁ =>
+      simp only [hs] at h
+      rw [run_append] at h
+      cases hg : run banned (flatAF (⟨kd, gks.map BTree.dir⟩ :: p :: rest) gks) c₁ with
+      | error err => simp [hg] at h
+      | ok c₂ =>
+        simp only [hg] at h
+        obtain ⟨y₀, hy₀, e₀⟩ := step_loc hs hx
+        obtain ⟨y₁, hy₁, e₁⟩ := run_loc _ hg hy₀
+        obtain ⟨y, hy, ih1, ih2⟩ := run_kids_request hpi r c₂ c' y₁ h hy₁
+        by_cases hkd : kd.kind = .Request
+        · have ht : tgt ⟨kd, gks.map BTree.dir, p :: rest⟩ = some i := by
+            simp only [tgt, hkd, Ent.chain, List.map_cons]
+            rw [httpIdOf_skip (by simp [inner, hkd])]
+            exact toOption_ok hpi
+          simp only [ht, if_true, effP, hkd] at e₀
+          obtain ⟨hxn, hy₀r⟩ := lRequest_new hkd e₀
+          have hy₀s : y₀.request.isSome = true := by rw [hy₀r]; rfl
+          obtain ⟨hys, hnor⟩ := ih1 (foldP_request_mono i _ e₁ hy₀s)
+          refine ⟨y, hy, ?_, ?_⟩
+          · intro hxs; rw [hxn] at hxs; cases hxs
+          have : r.filter (·.dir.kind == .Request) = [] := by
+            rw [List.filter_eq_nil_iff]
+            intro k hk
+            simpa using hnor k hk
+          have hk1 : ((BTree.node kd gks).dir.kind == Kind.Request) = true := by simp [BTree.dir, hkd]
+          rw [List.filter_cons, if_pos hk1, this]
+          exact Nat.le_refl 1
+        · have hmono : x.request.isSome = true → y₀.request.isSome = true := by
+            intro hxs
+            split at e₀
+            · exact effP_request_mono e₀ hxs
+            · cases e₀; exact hxs
+          have hk0 : ¬ ((BTree.node kd gks).dir.kind == Kind.Request) = true := by simp [BTree.dir, hkd]
+          refine ⟨y, hy, ?_, by rw [List.filter_cons, if_neg hk0]; exact ih2⟩
+          intro hxs
+          obtain ⟨hys, hnor⟩ := ih1 (foldP_request_mono i _ e₁ (hmono hxs))
+          refine ⟨hys, ?_⟩
+          intro k hk
+          rcases List.mem_cons.mp hk with rfl | hk'
+          · exact hkd
+          · exact hnor k hk'
+
+/-- an accepted HTTP method directive has at most one Request child.  No nesting hypothesis: the first Request
+child leaves a request in the method's interaction, nothing takes it away, the second one is refused -/
+theorem http_one_request {banned : List Kind} {f : List BTree} {c : Cat} (h : compile banned f = .ok c)
+    {a : List Up} {d : BDir} {kids : List BTree} (hp : (a, .node d kids) ∈ subsF [] f)
+    (hH : isHTTP d.kind = true) : (kids.filter (·.dir.kind == .Request)).length ≤ 1 := by
+  obtain ⟨c₀, _, _, _, _, hr, _⟩ := compile_ok h
+  obtain ⟨pre, post, hdec⟩ := subsF_split [] f a _ hp
+  rw [hdec, List.append_assoc, run_append] at hr
+  cases h1 : run banned pre c₀ with
+  | error err => simp [h1] at hr
+  | ok c₁ =>
+    simp only [h1] at hr
+    rw [run_append] at hr
+    cases h2 : run banned (flatA a (.node d kids)) c₁ with
+    | error err => simp [h2] at hr
+    | ok c₃ =>
+      simp only [flatA, run] at h2
+      cases h3 : step banned ⟨d, kids.map BTree.dir, a⟩ c₁ with
+      | error err => simp [h3] at h2
+      | ok c₂ =>
+        simp only [h3] at h2
+        have hm : isMeth d.kind = true := by simp [isMeth, hH]
+        obtain ⟨i, ns, hid, hnone, hc₂⟩ := step_meth (e := ⟨d, kids.map BTree.dir, a⟩) hm h3
+        have hg₂ : c₂.getInter i = some { iid := i, annot := d.annot, tags := ns } := by
+          simp only [Cat.getInter] at hnone ⊢
+          rw [hc₂, List.find?_append, hnone]
+          simp
+        obtain ⟨y, _, _, hle⟩ := run_kids_request (p := ⟨d, kids.map BTree.dir⟩) (idOf_http hid hH) kids c₂ c₃ _ h2 hg₂
+        exact hle
+
+/-- the same for every method directive of a forest that obeys the nesting table (a JSON-RPC `Method` admits no
+Request child) -/
+theorem meth_one_request {banned : List Kind} {f : List BTree} {c : Cat} (h : compile banned f = .ok c)
+    (ho : obeysF f = true) {a : List Up} {t : BTree} (hp : (a, t) ∈ subsF [] f) (hm : isMeth t.dir.kind = true) :
+    (t.kids.filter (·.dir.kind == .Request)).length ≤ 1 := by
+  cases t with
+  | node d kids =>
+  simp only [BTree.dir] at hm
+  simp only [BTree.kids]
+  rcases isMeth_split hm with hM | ⟨_, hH⟩
+  · obtain ⟨_, _, _, _, hot, _⟩ := decomp_forest [] (by intro u hu; cases hu) f ho a _ hp hm
+    simp only [obeysT, Bool.and_eq_true, List.all_eq_true] at hot
+    have hM' : d.kind = .Method := by simpa using hM
+    have : kids.filter (·.dir.kind == .Request) = [] := by
+      rw [List.filter_eq_nil_iff]
+      intro k hk hkr
+      have ha := hot.1 k.dir (List.mem_map_of_mem hk)
+      have hkr' : k.dir.kind = .Request := by simpa using hkr
+      rw [hM', hkr'] at ha
+      revert ha; decide
+    simp [this]
+  · exact http_one_request h hp hH
+
+/-- two positions of a list that satisfy `P` -/
+theorem two_filter {α} (P : α → Bool) : ∀ (l : List α) (p q : Nat) (a b : α), p < q → l[p]? = some a →
+    l[q]? = some b → P a = true → P b = true → 2 ≤ (l.filter P).length
+  | [], p, q, a, b, _, h₁, _, _, _ => by simp at h₁
+  | x :: t, 0, q + 1, a, b, _, h₁, h₂, ha, hb => by
+    simp only [List.getElem?_cons_zero, Option.some.injEq] at h₁
+    subst h₁
+    simp only [List.getElem?_cons_succ] at h₂
+    have : b ∈ t.filter P := List.mem_filter.mpr ⟨List.mem_of_getElem? h₂, hb⟩
+    have := List.length_pos_of_mem this
+    simp only [List.filter_cons, ha, if_true, List.length_cons]
+    omega
+  | x :: t, p + 1, q + 1, a, b, hpq, h₁, h₂, ha, hb => by
+    simp only [List.getElem?_cons_succ] at h₁ h₂
+    have := two_filter P t p q a b (by omega) h₁ h₂ ha hb
+    simp only [List.filter_cons]
+    split
+    · simp only [List.length_cons]; omega
+    · exact this
+
+/-! ### the INFO block -/
+
+def orB (a b : Bytes) : Bytes := if a.isEmpty then b else a
+
+/-- the parameter `p` of the first child of kind `k` ("" when there is none) -/
+def firstParam (k : Kind) (p : String) (kids : List BDir) : Bytes :=
+  match kids.find? (·.kind == k) with
+  | some d => d.param p
+  | none => []
+
+/-- the INFO block declared by the children of the INFO directive `d` -/
+def infoOf (d : BDir) (kids : List BDir) : InfoM :=
+  { id := d.id, title := firstParam .Title "Title" kids, version := firstParam .Version "Version" kids,
+    descr := (kids.find? (·.kind == .Description)).bind descrText }
+
+theorem addDescription_info_exact {d : BDir} {anc : List Up} {c c' : Cat}
+    (hu : ∃ p r, anc = p :: r ∧ p.d.kind = .Info) (hs : addDescription d anc c = .ok c') :
+    ∃ i t, c.info = some i ∧ i.descr = none ∧ descrText d = some t ∧ c'.info = some { i with descr := some t } := by
+  obtain ⟨p, r, rfl, hk⟩ := hu
+  unfold addDescription at hs
+  simp only [fail, hk, beq_self_eq_true, if_true] at hs
+  split at hs; · cases hs
+  split at hs; · cases hs
+  rename_i b hb
+  split at hs; · cases hs
+  rename_i text htext
+  split at hs; · cases hs
+  split at hs; · cases hs
+  split at hs; · cases hs
+  rename_i i hi hd
+  cases hs
+  exact ⟨i, text, hi, by cases hdd : i.descr <;> simp_all, by simp [descrText, hb, htext], rfl⟩
+
+theorem neutral_not_info {k : Kind} (h : neutral k = true) : k ≠ .Info ∧ k ≠ .Title ∧ k ≠ .Version := by
+  cases k <;> first | (cases h; done) | decide
+
+theorem isMeth_not_info {k : Kind} (h : isMeth k = true) :
+    k ≠ .Info ∧ k ≠ .Title ∧ k ≠ .Version ∧ k ≠ .Description := by
+  cases k <;> first | (revert h; decide) | decide
+
+/-- what one step does to the INFO block -/
+theorem info_step {banned : List Kind} {e : Ent} {c c' : Cat} (h : step banned e c = .ok c') :
+    (e.d.kind = .Info ∧ c.info = none ∧ c'.info = some { id := e.d.id }) ∨
+    (e.d.kind = .Title ∧ ∃ i, c.info = some i ∧ i.title = [] ∧ e.d.param "Title" ≠ [] ∧
+      c'.info = some { i with title := e.d.param "Title" }) ∨
+    (e.d.kind = .Version ∧ ∃ i, c.info = some i ∧ i.version = [] ∧ e.d.param "Version" ≠ [] ∧
+      c'.info = some { i with version := e.d.param "Version" }) ∨
+    (e.d.kind = .Description ∧ underInfo e ∧ ∃ i t, c.info = some i ∧ i.descr = none ∧ descrText e.d = some t ∧
+      c'.info = some { i with descr := some t }) ∨
+    (e.d.kind ≠ .Info ∧ e.d.kind ≠ .Title ∧ e.d.kind ≠ .Version ∧ ¬(e.d.kind = .Description ∧ underInfo e) ∧
+      c'.info = c.info) := by
+  by_cases hdu : e.d.kind = .Description ∧ underInfo e
+  · exact .inr (.inr (.inr (.inl ⟨hdu.1, hdu.2, addDescription_info_exact hdu.2 (step_description hdu.1 h)⟩)))
+  · have hs := (step_ok h).2
+    cases hs
+    case info hk hn => exact .inl ⟨hk, hn, rfl⟩
+    case title i hk hi ht hp => exact .inr (.inl ⟨hk, i, hi, ht, hp, rfl⟩)
+    case version i hk hi ht hp => exact .inr (.inr (.inl ⟨hk, i, hi, ht, hp, rfl⟩))
+    case descrInfo i text hk hu _ _ => exact absurd ⟨hk, hu⟩ hdu
+    case same hn => obtain ⟨a, b, c⟩ := neutral_not_info hn; exact .inr (.inr (.inr (.inr ⟨a, b, c, hdu, rfl⟩)))
+    case inters hn _ => obtain ⟨a, b, c⟩ := neutral_not_info hn; exact .inr (.inr (.inr (.inr ⟨a, b, c, hdu, rfl⟩)))
+    case tagsMap hn _ => obtain ⟨a, b, c⟩ := neutral_not_info hn; exact .inr (.inr (.inr (.inr ⟨a, b, c, hdu, rfl⟩)))
+    case proto hn => obtain ⟨a, b, c⟩ := neutral_not_info hn; exact .inr (.inr (.inr (.inr ⟨a, b, c, hdu, rfl⟩)))
+    case method hm _ _ _ _ =>
+      obtain ⟨a, b, c, _⟩ := isMeth_not_info hm; exact .inr (.inr (.inr (.inr ⟨a, b, c, hdu, rfl⟩)))
+    case jsight hk _ => exact .inr (.inr (.inr (.inr ⟨by simp [hk], by simp [hk], by simp [hk], hdu, rfl⟩)))
+    case server hk _ _ => exact .inr (.inr (.inr (.inr ⟨by simp [hk], by simp [hk], by simp [hk], hdu, rfl⟩)))
+    case baseUrl hk _ => exact .inr (.inr (.inr (.inr ⟨by simp [hk], by simp [hk], by simp [hk], hdu, rfl⟩)))
+    case type hk _ _ => exact .inr (.inr (.inr (.inr ⟨by simp [hk], by simp [hk], by simp [hk], hdu, rfl⟩)))
+    case url hk _ => exact .inr (.inr (.inr (.inr ⟨by simp [hk], by simp [hk], by simp [hk], hdu, rfl⟩)))
+
+theorem info_step_some {banned : List Kind} {e : Ent} {c c' : Cat} (h : step banned e c = .ok c')
+    (hi : c.info.isSome = true) : c'.info.isSome = true ∧ e.d.kind ≠ .Info := by
+  rcases info_step h with ⟨_, hn, _⟩ | ⟨hk, i, _, _, _, hc⟩ | ⟨hk, i, _, _, _, hc⟩ | ⟨hk, _, i, t, _, _, _, hc⟩ | ⟨hk, _, _, _, hc⟩
+  · rw [hn] at hi; cases hi
+  · exact ⟨by simp [hc], by simp [hk]⟩
+  · exact ⟨by simp [hc], by simp [hk]⟩
+  · exact ⟨by simp [hc], by simp [hk]⟩
+  · exact ⟨by rw [hc]; exact hi, hk⟩
+
+/-- once the INFO block exists no later directive is an INFO directive -/
+theorem run_no_info {banned : List Kind} : ∀ (l : List Ent) {c c' : Cat}, run banned l c = .ok c' →
+    c.info.isSome = true → ∀ e ∈ l, e.d.kind ≠ .Info
+  | [], _, _, _, _, e, he => by cases he
+  | a :: r, c, c', h, hi, e, he => by
+    simp only [run] at h
+    cases hs : step banned a c with
+    | error err => simp [hs] at h
+    | ok c₁ =>
+      simp only [hs] at h
+      obtain ⟨h1, h2⟩ := info_step_some hs hi
+      rcases List.mem_cons.mp he with rfl | he'
+      · exact h2
+      · exact run_no_info r h h1 e he'
+
+theorem run_info_keep {banned : List Kind} : ∀ (l : List Ent) {c c' : Cat}, run banned l c = .ok c' →
+    (∀ e ∈ l, e.d.kind ≠ .Info ∧ e.d.kind ≠ .Title ∧ e.d.kind ≠ .Version ∧ ¬(e.d.kind = .Description ∧ underInfo e)) →
+    c'.info = c.info
+  | [], c, c', h, _ => by simp [run] at h; rw [h]
+  | a :: r, c, c', h, hall => by
+    simp only [run] at h
+    cases hs : step banned a c with
+    | error err => simp [hs] at h
+    | ok c₁ =>
+      simp only [hs] at h
+      obtain ⟨n1, n2, n3, n4⟩ := hall a (List.mem_cons_self ..)
+      have hc₁ : c₁.info = c.info := by
+        rcases info_step hs with ⟨hk, _⟩ | ⟨hk, _⟩ | ⟨hk, _⟩ | ⟨hk, hu, _⟩ | ⟨_, _, _, _, hc⟩
+        · exact absurd hk n1
+        · exact absurd hk n2
+        · exact absurd hk n3
+        · exact absurd ⟨hk, hu⟩ n4
+        · exact hc
+      rw [run_info_keep r h (fun e he => hall e (List.mem_cons_of_mem _ he)), hc₁]
+
+theorem admits_leaf2 {k : Kind} (h : k = .Title ∨ k = .Version) (c : Kind) : admitsK k c = false := by
+  rcases h with rfl | rfl <;> rfl
+
+theorem info_kid_table (c : Kind) (ha : admitsK .Info c = true) :
+    c = .Title ∨ c = .Version ∨ c = .Description ∨ c = .Paste := by
+  revert ha; cases c <;> decide
+
+theorem orB_nil (b : Bytes) : orB [] b = b := rfl
+theorem orB_right_nil (a : Bytes) : orB a [] = a := by unfold orB; split <;> simp_all
+theorem orB_ne {a : Bytes} (h : a ≠ []) (b : Bytes) : orB a b = a := by
+  unfold orB; cases a <;> simp_all
+
+/-- the children of the INFO directive fill the INFO block -/
+theorem run_info_kids {banned : List Kind} {p : Up} {rest : List Up} (hp : p.d.kind = .Info) :
+    ∀ (kids : List BTree), obeysF kids = true → (∀ k ∈ kids, admitsK .Info k.dir.kind = true) →
+    ∀ (c c' : Cat) (i : InfoM), run banned (flatAF (p :: rest) kids) c = .ok c' → c.info = some i →
+      c'.info = some { i with title := orB i.title (firstParam .Title "Title" (kids.map BTree.dir)),
+                              version := orB i.version (firstParam .Version "Version" (kids.map BTree.dir)),
+                              descr := i.descr.or (((kids.map BTree.dir).find? (·.kind == .Description)).bind descrText) }
+  | [], _, _, c, c', i, h, hi => by
+    simp [flatAF, run] at h; subst h
+    rw [hi]; simp [firstParam, orB_right_nil]
+  | .node kd gks :: r, ho, ha, c, c', i, h, hi => by
+    simp only [obeysF, Bool.and_eq_true] at ho
+    have hkind := info_kid_table _ (ha _ (List.mem_cons_self ..))
+    simp only [BTree.dir] at hkind
+    have hleaf : gks = [] := leaf_kids ho.1 (by
+      rcases hkind with h | h | h | h
+      · exact admits_leaf2 (.inl h)
+      · exact admits_leaf2 (.inr h)
+      · exact admits_leaf (by simp [h])
+      · exact admits_leaf (by simp [h]))
+    subst hleaf
+    simp only [flatAF, flatA, List.map_nil, List.cons_append, List.nil_append, run] at h
+    cases hs : step banned ⟨kd, [], p :: rest⟩ c with
+    | error err => simp [hs] at h
+    | ok c₁ =>
+      simp only [hs] at h
+      have ih := run_info_kids (banned := banned) (rest := rest) hp r ho.2 (fun k hk => ha k (List.mem_cons_of_mem _ hk)) c₁ c'
+      have hund : underInfo ⟨kd, [], p :: rest⟩ := ⟨p, rest, rfl, hp⟩
+      rcases info_step hs with ⟨hk, _⟩ | ⟨hk, i', hi', ht, hpn, hc⟩ | ⟨hk, i', hi', ht, hpn, hc⟩ |
+          ⟨hk, _, i', t, hi', ht, hdt, hc⟩ | ⟨n1, n2, n3, n4, hc⟩
+      · rcases hkind with h' | h' | h' | h' <;> simp [h'] at hk
+      · simp only at hk hpn hc
+        rw [hi] at hi'; cases hi'
+        rw [ih _ h hc]
+        simp [firstParam, BTree.dir, hk, kbeq, ht, orB_nil, orB_ne hpn]
+      · simp only at hk hpn hc
+        rw [hi] at hi'; cases hi'
+        rw [ih _ h hc]
+        simp [firstParam, BTree.dir, hk, kbeq, ht, orB_nil, orB_ne hpn]
+      · simp only at hk hdt hc
+        rw [hi] at hi'; cases hi'
+        rw [ih _ h hc]
+        simp [firstParam, BTree.dir, hk, kbeq, ht, hdt]
+      · simp only at n1 n2 n3 n4 hc
+        have hnd : kd.kind ≠ .Description := fun hkd => n4 ⟨hkd, hund⟩
+        rw [ih i h (hc.trans hi)]
+        have hP : kd.kind = .Paste := by rcases hkind with h' | h' | h' | h' <;> simp_all
+        simp [firstParam, BTree.dir, hP, kbeq]
+
+mutual
+  /-- in an obeying forest the parent of an entry admits it -/
+  theorem parent_tree (anc : List Up) : ∀ t : BTree, obeysT t = true → ∀ e ∈ flatA anc t,
+      (e.anc = anc ∧ e.d = t.dir) ∨
+        ∃ u rest, e.anc = u :: rest ∧ admitsK u.d.kind e.d.kind = true ∧ u.d ∈ flat t
+    | .node d kids, ho, e, he => by
+      simp only [flatA, List.mem_cons] at he
+      simp only [obeysT, Bool.and_eq_true, List.all_eq_true] at ho
+      rcases he with rfl | he
+      · exact .inl ⟨rfl, rfl⟩
+      · rcases parent_forest _ kids ho.2 e he with ⟨h1, k, hk, hkd⟩ | ⟨u, rest, h1, h2, h3⟩
+        · exact .inr ⟨⟨d, kids.map BTree.dir⟩, anc, h1,
+            by rw [← hkd]; exact ho.1 k.dir (List.mem_map_of_mem hk), by simp [flat]⟩
+        · exact .inr ⟨u, rest, h1, h2, by simp [flat, h3]⟩
+  theorem parent_forest (anc : List Up) : ∀ f : List BTree, obeysF f = true → ∀ e ∈ flatAF anc f,
+      (e.anc = anc ∧ ∃ t ∈ f, t.dir = e.d) ∨
+        ∃ u rest, e.anc = u :: rest ∧ admitsK u.d.kind e.d.kind = true ∧ u.d ∈ flatF f
+    | [], _, e, he => by simp [flatAF] at he
+    | t :: r, ho, e, he => by
+      simp only [obeysF, Bool.and_eq_true] at ho
+      simp only [flatAF, List.mem_append] at he
+      rcases he with he | he
+      · rcases parent_tree anc t ho.1 e he with ⟨h1, h2⟩ | ⟨u, rest, h1, h2, h3⟩
+        · exact .inl ⟨h1, t, List.mem_cons_self .., h2.symm⟩
+        · exact .inr ⟨u, rest, h1, h2, by simp [flatF, h3]⟩
+      · rcases parent_forest anc r ho.2 e he with ⟨h1, k, hk, hkd⟩ | ⟨u, rest, h1, h2, h3⟩
+        · exact .inl ⟨h1, k, List.mem_cons_of_mem _ hk, hkd⟩
+        · exact .inr ⟨u, rest, h1, h2, by simp [flatF, h3]⟩
+end
+
+theorem obeysF_append : ∀ f g : List BTree, obeysF (f ++ g) = (obeysF f && obeysF g)
+  | [], g => by simp [obeysF]
+  | t :: r, g => by simp [obeysF, obeysF_append r g, Bool.and_assoc]
+
+theorem admits_title_version {p c : Kind} (hc : c = .Title ∨ c = .Version) (h : admitsK p c = true) :
+    p = .Info ∨ p = .Macro := by
+  revert h
+  rcases hc with rfl | rfl <;> cases p <;> decide
+
+/-- the INFO block of the catalog is the one the INFO directive declares: its id, the Title and Version of its
+children, the normal form of its Description child.  Needs the nesting table, no MACRO directive left (they are
+removed before `buildCatalog`) and admissible root directives: otherwise a stray Title could fill the block. -/
+theorem info_content {banned : List Kind} {f : List BTree} {c : Cat} (h : compile banned f = .ok c)
+    (ho : obeysF f = true) (hnm : ∀ d ∈ flatF f, d.kind ≠ .Macro)
+    (hroot : ∀ t ∈ f, rootAllowed.contains t.dir.kind = true)
+    {d : BDir} {kids : List BTree} (ht : BTree.node d kids ∈ f) (hk : d.kind = .Info) :
+    c.info = some (infoOf d (kids.map BTree.dir)) := by
+  obtain ⟨c₀, _, _, _, _, hr, _⟩ := compile_ok h
+  obtain ⟨f₁, f₂, rfl⟩ := List.append_of_mem ht
+  rw [obeysF_append] at ho
+  simp only [obeysF, obeysT, Bool.and_eq_true, List.all_eq_true] at ho
+  obtain ⟨_, ⟨hall, hok⟩, ho₂⟩ := ho
+  rw [flatAF_append, run_append] at hr
+  cases h1 : run banned (flatAF [] f₁) c₀ with
+  | error err => simp [h1] at hr
+  | ok c₁ =>
+    simp only [h1, flatAF, flatA, List.cons_append, run] at hr
+    cases h2 : step banned ⟨d, kids.map BTree.dir, []⟩ c₁ with
+    | error err => simp [h2] at hr
+    | ok c₂ =>
+      simp only [h2] at hr
+      rw [run_append] at hr
+      cases h3 : run banned (flatAF [⟨d, kids.map BTree.dir⟩] kids) c₂ with
+      | error err => simp [h3] at hr
+      | ok c₃ =>
+        simp only [h3] at hr
+        have hc₂ : c₂.info = some { id := d.id } := by
+          rcases info_step h2 with ⟨_, _, hc⟩ | ⟨hk', _⟩ | ⟨hk', _⟩ | ⟨hk', _⟩ | ⟨hk', _⟩
+          · exact hc
+          all_goals simp [hk] at hk'
+        have hc₃ := run_info_kids (p := ⟨d, kids.map BTree.dir⟩) (rest := []) hk kids hok
+          (fun k hk' => by simpa [hk] using hall k.dir (List.mem_map_of_mem hk')) c₂ c₃ _ h3 hc₂
+        have hnoinfo : ∀ e ∈ flatAF [] f₂, e.d.kind ≠ .Info := run_no_info _ hr (by simp [hc₃])
+        have hnoinfo' : ∀ d' ∈ flatF f₂, d'.kind ≠ .Info := by
+          intro d' hd'
+          rw [← flatAF_dirs [] f₂] at hd'
+          obtain ⟨e', he', rfl⟩ := List.mem_map.mp hd'
+          exact hnoinfo e' he'
+        have hnm₂ : ∀ d' ∈ flatF f₂, d'.kind ≠ .Macro := by
+          intro d' hd'
+          exact hnm d' (by simp [flatF_append, flatF, hd'])
+        have hkeep := run_info_keep _ hr (fun e he => by
+          have hTV : ∀ k : Kind, (k = .Title ∨ k = .Version) → e.d.kind ≠ k := by
+            intro k hkk hek
+            rcases parent_forest [] f₂ ho₂ e he with ⟨_, t, ht', htd⟩ | ⟨u, rest, _, h2', h3'⟩
+            · have := hroot t (by simp [ht'])
+              rw [htd, hek] at this
+              rcases hkk with rfl | rfl <;> revert this <;> decide
+            · rw [hek] at h2'
+              rcases admits_title_version hkk h2' with hI | hM
+              · exact hnoinfo' _ h3' hI
+              · exact hnm₂ _ h3' hM
+          refine ⟨hnoinfo e he, hTV _ (.inl rfl), hTV _ (.inr rfl), ?_⟩
+          rintro ⟨_, p, r, hanc, hpk⟩
+          obtain ⟨ups, h1', h2', _⟩ := mem_flatAF_anc [] f₂ e he
+          rw [hanc, List.append_nil] at h1'
+          exact hnoinfo' _ (h2' p (by rw [← h1']; exact List.mem_cons_self ..)) hpk)
+        rw [hkeep, hc₃]
+        simp [infoOf, orB_nil]
+
+
+theorem run_info_none {banned : List Kind} : ∀ (l : List Ent) {c c' : Cat}, run banned l c = .ok c' →
+    c.info = none → (∀ e ∈ l, e.d.kind ≠ .Info) → c'.info = none
+  | [], c, c', h, hi, _ => by simp [run] at h; rw [← h]; exact hi
+  | a :: r, c, c', h, hi, hall => by
+    simp only [run] at h
+    cases hs : step banned a c with
+    | error err => simp [hs] at h
+    | ok c₁ =>
+      simp only [hs] at h
+      have hc₁ : c₁.info = none := by
+        rcases info_step hs with ⟨hk, _⟩ | ⟨_, i, hi', _⟩ | ⟨_, i, hi', _⟩ | ⟨_, _, i, t, hi', _⟩ | ⟨_, _, _, _, hc⟩
+        · exact absurd hk (hall a (List.mem_cons_self ..))
+        · rw [hi] at hi'; cases hi'
+        · rw [hi] at hi'; cases hi'
+        · rw [hi] at hi'; cases hi'
+        · rw [hc]; exact hi
+      exact run_info_none r h hc₁ (fun e he => hall e (List.mem_cons_of_mem _ he))
+
+/-- no INFO directive, no INFO block -/
+theorem info_none {banned : List Kind} {f : List BTree} {c : Cat} (h : compile banned f = .ok c)
+    (hno : ∀ d ∈ flatF f, d.kind ≠ .Info) : c.info = none := by
+  obtain ⟨c₀, h0, _, _, _, hr, _⟩ := compile_ok h
+  refine run_info_none _ hr (by rw [collectTags_empty h0]) ?_
+  intro e he
+  exact hno e.d (by rw [← flatAF_dirs [] f]; exact List.mem_map_of_mem (f := fun e : Ent => e.d) he)
 
 end JSight.C04C
